@@ -31,7 +31,6 @@ import (
 
 	"github.com/jamf/regatta/regattapb"
 	serrors "github.com/jamf/regatta/storage/errors"
-	"github.com/jamf/regatta/storage/table"
 )
 
 func init() { modes["conc"] = hConc }
@@ -52,46 +51,18 @@ func refusedByValidation(err error) bool {
 
 func concScenario(out *Out, sc int) {
 	r := newRand(int64(9950 + sc))
-	members := map[uint64]string{}
-	for i := uint64(1); i <= 3; i++ {
-		members[i] = fmt.Sprintf("127.0.0.1:%d", freePort())
+	tname := "cc"
+	nodes := startCluster3(out, r, tname)
+	if nodes == nil {
+		return
 	}
-	nodes := make([]*cnode, 3)
-	for i := range nodes {
-		nodes[i] = &cnode{id: uint64(i + 1), members: members, rt: table.SnapshotRecoveryType(r.Intn(2))}
-	}
-	var wg sync.WaitGroup
-	errs := make([]error, 3)
-	for i := range nodes {
-		wg.Add(1)
-		go func(i int) { defer wg.Done(); errs[i] = nodes[i].start() }(i)
-	}
-	wg.Wait()
 	defer func() {
 		for _, n := range nodes {
 			n.stop()
 		}
 	}()
-	for i, err := range errs {
-		if err != nil {
-			out.Line(fmt.Sprintf("cluster-start %d", sc), fmt.Sprintf("err node %d: %v", i+1, err))
-			return
-		}
-	}
-	for _, n := range nodes {
-		if !n.ready(60 * time.Second) {
-			out.Line(fmt.Sprintf("cluster-start %d", sc), "err not-ready")
-			return
-		}
-	}
-	tname := "cc"
-	if _, err := nodes[0].e.CreateTable(tname); err != nil {
-		out.Line("create", "err "+err.Error())
-		return
-	}
-	for _, n := range nodes {
-		waitTable(n.e, tname)
-	}
+	var wg sync.WaitGroup
+	out.Count("scenarios_set_up")
 	out.Line("reset", "ok")
 
 	shared := newFsmGen(r)
@@ -346,5 +317,8 @@ func hConc(dir string) {
 	n := envInt("VERIF_N", 2)
 	for sc := 0; sc < n; sc++ {
 		concScenario(out, sc)
+	}
+	if out.Stats["scenarios_set_up"] == 0 {
+		out.Line("cluster-setup", "err no scenario could be set up")
 	}
 }
